@@ -81,6 +81,9 @@ class OperatorResolver(metaclass=abc.ABCMeta):
             raise exc_for_token(token, f"Unknown operator '{symbol}'.")
         return token, self.operator_table[symbol]
 
-    # The operator table cache may not be pickleable, so let's drop it.
+    # The operator table cache may not be pickleable, so let's drop it (and
+    # only it: subclasses keep configuration such as feature flags).
     def __getstate__(self) -> dict:
-        return {}
+        state = dict(self.__dict__)
+        state.pop("operator_table", None)
+        return state
